@@ -22,7 +22,7 @@ GRID = 6.25e9
 
 BOUNDS = {  # tier -> (MaxHist for B1, MaxHist for exhaustive emission, simulate num, simulate depth)
     'quick': (4, 3, 1500, 5),
-    'thorough': (5, 4, 30000, 7),
+    'thorough': (5, 3, 60000, 7),
 }
 
 
